@@ -17,6 +17,13 @@ Proof. intros; unfold vtrunc; apply mod_mod_le; lia. Qed.
 Lemma small_in_wider v a b : 0 <= a <= b -> 0 <= v < 2 ^ a -> 0 <= v < 2 ^ b.
 Proof. intros H Hv; pose proof (pow2_le a b H); lia. Qed.
 
+(* masks written as `x & ((1<<w)-1)` anywhere in a generated definition are truncations; nested ones collapse:
+   proofs below normalise with this instead of depending on how many times the Python code masks *)
+Ltac norm_trunc :=
+  unfold Wire_put, Wire_prepare, py_shl, py_shr in *; cbv zeta;
+  repeat match goal with |- context [Z.land ?x (Z.shiftl 1 ?w - 1)] => change (Z.land x (Z.shiftl 1 w - 1)) with (trunc w x) end;
+  rewrite ?trunc_idem by lia.
+
 Section Sound.
 Variable env : list Z.
 Definition okn (n : nid) : Prop := 0 < snd n /\ 0 <= getv env (fst n) < 2 ^ snd n.
@@ -78,10 +85,7 @@ Theorem inl_sub_sound r a b : okn a -> okn b -> 0 < snd r ->
   forall l e, inl_bin BSub r a b = [(l, e)] -> assign_value env l e = Sub_propagate (snd r) (val a) (val b).
 Proof.
   intros Ha Hb Hr l e H; inversion H; subst. binrw.
-  unfold Sub_propagate, Wire_put, py_shl. cbv zeta.
-  change (Z.land (Z.land (val a - val b) (Z.shiftl 1 (snd r) - 1)) (Z.shiftl 1 (snd r) - 1))
-    with (trunc (snd r) (trunc (snd r) (val a - val b))).
-  rewrite trunc_idem by lia. reflexivity.
+  unfold Sub_propagate. norm_trunc. reflexivity.
 Qed.
 
 (* ---- assign r = a + b + ci; *)
@@ -250,10 +254,7 @@ Proof.
   change (rsigned (rid a)) with false. change (rsigned (rid b)) with false.
   rewrite !reval_rid by (auto; lia). cbn [bop extend].
   destruct Ha as [Hwa Hva], Hb as [Hwb Hvb].
-  rewrite !c2_to_signed_spec by lia. cbv zeta. unfold Wire_put, py_shl.
-  change (Z.land (Z.land (to_signed (snd a) (val a) * to_signed (snd b) (val b)) (Z.shiftl 1 (snd r) - 1)) (Z.shiftl 1 (snd r) - 1))
-    with (trunc (snd r) (trunc (snd r) (to_signed (snd a) (val a) * to_signed (snd b) (val b)))).
-  rewrite trunc_idem by lia. rewrite vtrunc_vtrunc_le by lia. rewrite !vtrunc_trunc by lia.
+  rewrite !c2_to_signed_spec by lia. norm_trunc. rewrite vtrunc_vtrunc_le by lia. rewrite !vtrunc_trunc by lia.
   rewrite <- (trunc_trunc_le (snd r) w) by lia. rewrite trunc_mul_l, trunc_mul_r by lia.
   rewrite trunc_trunc_le by lia. reflexivity.
 Qed.
